@@ -29,6 +29,11 @@
 #include "utils/statistics.h"
 #include "utils/debug_trace.h"
 
+#ifdef LIBPOLY_VERIF
+/** Verification-only switch, defined in upolynomial/gcd.c */
+extern int lp_verif_gcd_mode;
+#endif
+
 void monomial_gcd_visit(const lp_polynomial_context_t* ctx, lp_monomial_t* m, void* data) {
   lp_monomial_t* gcd = (lp_monomial_t*) data;
   if (integer_is_zero(ctx->K, &gcd->a)) {
@@ -125,6 +130,12 @@ int coefficient_gcd_pp_univariate(const lp_polynomial_context_t* ctx,
 
   assert(C1->type == COEFFICIENT_POLYNOMIAL);
   assert(C2->type == COEFFICIENT_POLYNOMIAL);
+
+#ifdef LIBPOLY_VERIF
+  if (lp_verif_gcd_mode & 2) {
+    return 0;
+  }
+#endif
 
   if (trace_is_enabled("coefficient")) {
     tracef("coefficient_gcd_pp_univariate()\n");
